@@ -134,9 +134,12 @@ theorem gen_constants :
 
 /-- (G) `buildIndexes` stores each overlay at the position of its index (the premise of
 `index_order_complete`), and `LoadDatabase` waits for the index-building workers before it
-looks at their error value (otherwise a duplicate found late is not refused). -/
+looks at their error value (otherwise a duplicate found late is not refused); a section is
+taken for the views section only if its schema LINE starts with `views ` (the header dump writes
+is `views (view_name,…`), not when a table's name merely starts with `views`. -/
 theorem gen_load_structure :
-    Gsu.Gen.Dump.overlayPlacedByIndex = true ∧ Gsu.Gen.Dump.waitBeforeErrCheck = true :=
-  ⟨rfl, rfl⟩
+    Gsu.Gen.Dump.overlayPlacedByIndex = true ∧ Gsu.Gen.Dump.waitBeforeErrCheck = true ∧
+    Gsu.Gen.Dump.viewsSectionTest = "schema|views " :=
+  ⟨rfl, rfl, rfl⟩
 
 end Gsu.Props.C20
